@@ -12,6 +12,10 @@ def keepaliveOp (impl : String) : List String → Option (String × String × St
     let n ← n.toNat?
     let want := toString (refreshCount n)
     some (want, verdict (impl == want) s!"spec wants the deadline refreshed {want} times", "-")
+  -- `ka.write k n`: the broker writes n queued packets to a client that sends nothing. C37: the deadline is moved only
+  -- by packets that ARRIVE from the client — what the broker sends never postpones it.
+  | ["ka.write", _k, _n] =>
+    some ("0", verdict (impl == "0") "spec wants no deadline refresh caused by packets the broker writes", "-")
   | _ => none
 
 end Mochi.Driver
